@@ -667,6 +667,10 @@ func (x *Exec) execRange(s *State, n *ast.RangeStmt) *State {
 		f.rangeIdx = map[int]types.Object{}
 	}
 	f.rangeIdx[ord] = idxObj
+	if f.rangeColl == nil {
+		f.rangeColl = map[int]*Term{}
+	}
+	f.rangeColl[ord] = coll // rangeSlice[T](ord) in invariants: the (unnamed) operand of this range loop
 	var keyObj, valObj types.Object
 	if id, ok := n.Key.(*ast.Ident); ok && id.Name != "_" {
 		keyObj = x.objOf(id)
